@@ -58,9 +58,20 @@ class ExprMixin2:
             if ft is None and cls and not cls.startswith("ast."):
                 if cls in ("list", "dict", "set", "tuple", "bytearray", "str", "bytes") or not self.repo.has_class(cls):
                     return [(st, V("bound", xs=(v, name)))]
-                raise Unsupported(f"{self.where(node)}: field {cls}.{name} is not declared in the sidecar")
+                # neither a method / property / class constant in the live tables nor a field the sidecar declares: Python raises
+                st.log.append(("attribute-error", cls, name, getattr(node, "lineno", 0)))
+                return [(self.raise_exc(st, "AttributeError"), None)]
             if ft is None:
                 ft = ("ast", "val") if name in self.ast_field_names else None
+            if ft is None and k == "val" and cls is None and name in ("split", "rsplit", "startswith", "endswith", "strip", "find", "count"):
+                st.log.append(("assume-str", name, getattr(node, "lineno", 0)))
+                return [(st, V("bound", xs=(V("str", Val.s(v.t)), name)))]
+            if ft is None and k == "val" and name in ("append", "extend", "insert", "pop"):
+                # a method of list called on a value of unknown class: type assumption "it is a list" (checked by C13's type obligations)
+                st.log.append(("assume-list", name, getattr(node, "lineno", 0)))
+                st.assume(Val.is_R(v.t))
+                st.wf_ref(Val.r(v.t))
+                return [(st, V("bound", xs=(V("ref", Val.r(v.t), cls="list"), name)))]
             if ft is None:
                 raise Unsupported(f"{self.where(node)}: cannot resolve attribute .{name} on {v!r}")
             decl, ty = ft
@@ -73,6 +84,9 @@ class ExprMixin2:
                     xs.append(self.unbox(tj, pt, st) if sort_of_type(pt) == Val else V(pt, tj))
                 return [(st, V("tuple", xs=xs))]
             t = st.read(f"{decl}.{name}", r, sort_of_type(ty))
+            if decl == "ast" and self.private_pred is not None:
+                # ownership: the backing lists of Stack / ModuleBody never escape into AST nodes (encapsulation obligations, C09)
+                st.assume(z3.Implies(Val.is_R(t), z3.Not(self.private_pred(Val.r(t)))))
             if sort_of_type(ty) == Val:
                 return [(st, self.unbox(t, ty, st))]
             return [(st, V(ty, t))]
@@ -122,7 +136,7 @@ class ExprMixin2:
             imp = self.repo.imports.get(mod, {}).get(name)
             if imp:
                 return self.imported(imp)
-        if mod == "ast" and name[0].isupper():
+        if mod == "ast" and name in self.repo.live["ast_fields"]:
             return V("cls", z3.IntVal(static_ref("class:ast." + name)), cls="ast." + name)
         if mod == "fickling":
             return self.imported("fickling." + name)
@@ -300,8 +314,9 @@ class ExprMixin2:
             stp = sv.as_long()
         else:
             stp = 1
-        if v.k == "ref" and v.cls and self.repo.has_class(v.cls):
-            raise Unsupported(f"{self.where(node)}: slice of repo sequence class {v.cls} (give __getitem__ a slice contract)")
+        if v.k in ("ref", "val") and v.cls and self.repo.has_class(v.cls):
+            recv = v if v.k == "ref" else self.unbox(v.t, v.cls, st)
+            return self.call_method(recv, "__getitem__", [V("slice", xs=(lo, hi, step))], {}, st, node)
         if v.k in ("str", "bytes"):
             n = z3.Length(v.t)
             a, b = self._bounds(lo, hi, n)
@@ -547,7 +562,7 @@ class ExprMixin2:
                 if a.k == "tuple" and b.k == "tuple":
                     return V("tuple", xs=a.xs + b.xs)
                 t = z3.Concat(self.as_seq(a, st), self.as_seq(b, st))
-                if a.k == "ref" and a.cls == "list":
+                if a.k == "ref" and a.cls == "list" and not self.spec_mode:
                     return vref(st.new_list(t), cls="list", elem=a.elem)
                 return V("seq", t, elem=self.elem_type(a))
         if op is ast.Sub and a.k in ("ref", "val") and a.cls == "set":
@@ -570,8 +585,11 @@ class ExprMixin2:
                 continue
             items = [box(self.materialize(v, s)) for v in vs]
             seq = z3.Concat(*[z3.Unit(i) for i in items]) if len(items) > 1 else (z3.Unit(items[0]) if items else z3.Empty(SeqV))
+            if self.spec_mode:
+                out.append((s, V("seq", seq)))      # specifications speak about sequence values: no allocation
+                continue
             r = vref(s.new_list(seq), cls="list")
-            r.note = ("static_items", vs)
+            r.note = ("static_items", vs, seq)
             out.append((s, r))
         return out
 
